@@ -121,6 +121,10 @@ func (core *JApiCore) compileUserTypeWithAllDependencies(name string) error {
 
 	tt, err := fetchUsedUserTypes(currUT, core.userTypes)
 	if err != nil {
+		// Positions in the error are relative to the type the error occurred in.
+		if d := dd.GetValue(failedUserType(err, name)); d != nil {
+			return jschemaToJAPIError(err, d)
+		}
 		return jschemaToJAPIError(err, dd.GetValue(name))
 	}
 
